@@ -2615,7 +2615,11 @@ pub fn assign(env: &REnv, lhs: &EvaluatedLvalue, rt: Option<&ObjType>, rhs: Obj)
                         env,
                         ss,
                         rt,
-                        len,
+                        // a string unpacks into its characters, len() counts its bytes
+                        match &seq {
+                            Seq::String(s) => s.chars().count(),
+                            _ => len,
+                        },
                         || seq_to_cloning_iter(&seq).collect::<NRes<Vec<Obj>>>(),
                         "Can't unpack into mismatched length",
                     ),
